@@ -775,6 +775,7 @@ fn dump_adts<'tcx>(tcx: TyCtxt<'tcx>) -> J {
                     ("ty", J::s(&fty.to_string())),
                     ("pub", J::Bool(f.vis.is_public())),
                     ("freeze", J::Bool(fty.is_freeze(tcx, env))),
+                    ("copy", J::Bool(tcx.type_is_copy_modulo_regions(env, fty))),
                 ]));
             }
             variants.push(J::Obj(vec![("name", J::s(v.name.as_str())), ("fields", J::Arr(fields))]));
